@@ -13,6 +13,7 @@ import (
 	"strings"
 
 	"github.com/arm-doe/sts"
+	"github.com/arm-doe/sts/verifhook"
 )
 
 // LockExt is the file extension added to file names as contents are written.
@@ -83,7 +84,9 @@ func writeJSON(path string, data interface{}, humanFriendly bool) (err error) {
 	if err = os.WriteFile(path+LockExt, jsonBytes, 0644); err != nil {
 		return
 	}
+	verifhook.Point("fileutil.d.json.tmp", path)
 	err = os.Rename(path+LockExt, path)
+	verifhook.Point("fileutil.d.json.renamed", path)
 	return
 }
 
@@ -204,9 +207,11 @@ func Move(src, dst string) error {
 			return err
 		}
 	}
+	verifhook.Point("fileutil.d.move.lck", dst)
 	if err = os.Rename(dst+LockExt, dst); err != nil {
 		return err
 	}
+	verifhook.Point("fileutil.d.move.done", dst)
 	return nil
 }
 
